@@ -607,7 +607,7 @@ impl<'a> Http2Parser<'a> {
 
     /// The header block fragment of a HEADERS frame: payload without the pad length,
     /// the priority fields and the padding
-    fn headers_fragment(frame: &Http2Frame) -> Result<&[u8], Http2ParseError> {
+    pub(crate) fn headers_fragment(frame: &Http2Frame) -> Result<&[u8], Http2ParseError> {
         let mut fragment = frame.payload.as_slice();
         let mut pad_len: usize = 0;
         if frame.flags & 0x8 != 0 {
